@@ -470,6 +470,39 @@ func planC09(tier string, root *simcore.RNG) *plan {
 				Note: "slow-final-step", ConsStallMs: 11000, ConsStallEvery: 1, ConsStallSite: finals[s.sink]})
 		}
 	}
+	// every resolution of the uniform renderer from 2 to 32 (thorough: 48) cells on a cube:
+	// layer sizes that are and are not multiples of the worker batch size (a barrier
+	// that is skipped when the last batch of a layer is empty)
+	{
+		top := 32
+		if tier == "thorough" {
+			top = 48
+		}
+		have := map[string]bool{}
+		for _, s := range cat {
+			have[s.key()] = true
+		}
+		for cells := 2; cells <= top; cells++ {
+			r := root.Fork()
+			s := c09sig{"mcu", "cube", pick(r, []string{"tri", "stl"}), cells}
+			if have[s.key()] {
+				continue
+			}
+			have[s.key()] = true
+			cat = append(cat, s)
+			pl.scenarios = append(pl.scenarios, &Scenario{Prop: "C09", Family: "render", Seed: r.Uint64(), Groups: [][]Job{{s.job(1)}},
+				Sched: Sched{Policy: "fifo"}, Sites: map[string]uint32{}, Env: Env{GOMAXPROCS: 16, CPUs: 16}, Note: "canonical"})
+			j := s.job(1)
+			j.EvalMod = 16
+			sites := map[string]uint32{"close": 1, "worker.start": 1, "mc.sent": 1, "eval.pre": 16, "eval.post": 16, "write": 16}
+			for _, hs := range sinkSites(s.sink) {
+				sites[hs] = 1
+			}
+			pl.scenarios = append(pl.scenarios, &Scenario{Prop: "C09", Family: "render", Seed: r.Uint64(), Groups: [][]Job{{j}},
+				Sites: sites, Sched: genSched(r, []string{"evalpost", "consumer", fmt.Sprintf("eval:%d", r.Intn(8))}),
+				Env: Env{GOMAXPROCS: pick(r, []int{1, 4, 16}), CPUs: pick(r, []int{2, 4, 16})}, Note: "resolution-sweep"})
+		}
+	}
 	// the whole shape catalogue (every exported constructor and option): each entry is
 	// built and rendered in a canonical process and again in other fresh processes
 	// under another configuration - construction that depends on map iteration
